@@ -100,13 +100,14 @@ Section Parser.
               match problem with
               | None =>
                   Ok {| pf_name := fname; pf_sig := dict_of (combine items (dvalues lifted));
-                        pf_val := 0%float; pf_rep := [] |}
+                        pf_val := 0%float; pf_rep := []; pf_int := true |}
               | Some objs =>
                   do typed <- mapM (fun o => do t <- object_type objs o; Ok (o, t)) items;
                   let fsig := dict_of typed in
+                  (* argument i against parameter i (D31 = 3c74fae); the signature stays the name-keyed dict *)
                   if forallb (fun gt => is_sub_type (d_types dom) (fst gt) (snd gt))
-                             (combine (dvalues fsig) (dvalues lifted))
-                  then Ok {| pf_name := fname; pf_sig := fsig; pf_val := 0%float; pf_rep := [] |}
+                             (combine (map snd typed) (dvalues lifted))
+                  then Ok {| pf_name := fname; pf_sig := fsig; pf_val := 0%float; pf_rep := []; pf_int := true |}
                   else Err EAssert
               end
         end
@@ -115,8 +116,9 @@ Section Parser.
     | Atom _ => Err EAssert                                    (* a bare token where the fluent should be *)
     end.
 
+  (* numeric_fluent.set_value(float(text)): the parser hands over a float *)
   Definition pf_set_value (f : pfun) (v : float) : pfun :=
-    {| pf_name := pf_name f; pf_sig := pf_sig f; pf_val := v; pf_rep := pf_rep f |}.
+    {| pf_name := pf_name f; pf_sig := pf_sig f; pf_val := v; pf_rep := pf_rep f; pf_int := false |}.
 
   (* parse_grounded_predicate (no type check on the arguments) *)
   Definition parse_fact (pname : string) (lifted : signature) (args : list sexp) : result gpred :=
